@@ -282,6 +282,14 @@ pub fn c13(h: &mut H) {
                 // (an attribute equal to 0 contributes a_n^0 = 1: dropping it is the same statement)
                 reject(h, "attr_dropped", &k.pk, &bases[..n - 1], &sig, &msgs[..n - 1]);
             }
+            // MORE attributes than bases: nothing signed the surplus ones (a refusal by panic counts as refusal)
+            {
+                let mut m = msgs.clone();
+                m.push(hash_attr(h));
+                reject(h, "attr_appended", &k.pk, &bases, &sig, &m);
+                m.push(Integer::from(1));
+                reject(h, "attr_appended", &k.pk, &bases, &sig, &m);
+            }
             for f in ["e", "s", "v"] {
                 let x = field(&sig, f);
                 reject(h, "field_plus_1", &k.pk, &bases, &sig_with(&sig, f, &Integer::from(&x + 1u32)), &msgs);
@@ -668,4 +676,24 @@ pub fn c18(h: &mut H) {
     }
     h.expect(seen.len() == 3, "C18.rand_int_endpoints", "rand_int(-1, 1) never returned one of -1, 0, 1 in 400 draws", &[]);
     h.stat("C18.direct_random_calls");
+    // the JSON encoding through the file helper: a key pair written over an older, LONGER file at the same path (key
+    // rotation) must read back as exactly that key pair (implementation-side test; file I/O is outside the model)
+    if h.suite == "cl1024" {
+        use zkryptium::cl03::ciphersuites::CL1024Sha256;
+        use zkryptium::keys::pair::KeyPair;
+        use zkryptium::schemes::algorithms::CL03;
+        let r = std::panic::catch_unwind(|| {
+            let kp = KeyPair::<CL03<CL1024Sha256>>::generate();
+            let path = std::env::temp_dir().join(format!("zk-verif-keypair-{}.json", std::process::id()));
+            let ps = path.to_string_lossy().to_string();
+            let _ = std::fs::write(&path, vec![b' '; 100_000]);
+            kp.write_keypair_to_file(Some(ps.clone()));
+            let text = std::fs::read_to_string(&path).unwrap_or_default();
+            let _ = std::fs::remove_file(&path);
+            let back: Option<KeyPair<CL03<CL1024Sha256>>> = serde_json::from_str(&text).ok();
+            back.map(|b| b == kp).unwrap_or(false)
+        });
+        h.stat("C18.keypair_file");
+        h.expect(matches!(r, Ok(true)), "C18.keypair_file", "a key pair written with write_keypair_to_file over an older, longer file does not read back as that key pair", &[]);
+    }
 }
